@@ -94,6 +94,11 @@ func truthTables(p *load.Program, run *report.Run) (map[[3]int]int, error) {
 						env[v] = wires
 					case types.Identical(v.Type().Underlying(), types.Typ[types.Int]):
 						env[v] = fpai.IntV{K: 0}
+					// a variable whose address is taken (handed to a deferred Store, captured by a closure) lives in a cell
+					case types.Identical(v.Type(), types.NewPointer(types.NewSlice(types.Typ[types.Byte]))):
+						env[v] = fpai.PtrV{O: &fpai.Obj{V: wires}}
+					case types.Identical(v.Type(), types.NewPointer(types.NewSlice(gateT))):
+						env[v] = fpai.PtrV{O: &fpai.Obj{V: gates}}
 					default:
 						env[v] = fpai.OpaqueV{Name: v.Name()}
 					}
